@@ -31,6 +31,7 @@ import (
 	"verif/harness/c19"
 	"verif/harness/c20"
 	"verif/harness/common"
+	"verif/harness/stack"
 )
 
 var areas = map[string]common.Area{
@@ -56,6 +57,7 @@ var areas = map[string]common.Area{
 	"c18race": c18race.Area{},
 	"c19":     c19.Area{},
 	"c20":     c20.Area{},
+	"stack":   stack.Area{},
 }
 
 func main() {
